@@ -138,9 +138,24 @@ def resetSequenceNumbers (baseSeqs : List (Option Int)) (attrs : List SeqAttr) :
   let next := nextSequenceNumber baseSeqs
   attrs.map (fun a => { a with sequence := newSequence groups next a.sequence })
 
-/-- the three handlers in pipeline order, for one class -/
+/-- the three handlers in pipeline order, for one class, given the numbers of its bases -/
 def sequencePipeline (baseSeqs : List (Option Int)) (attrs : List SeqAttr) : List SeqAttr :=
   resetSequenceNumbers baseSeqs (resetSequences (calculatePaths attrs))
+
+/-- `ResetAttributeSequenceNumbers.process` along an inheritance chain (root class
+first).  `process(target)` first renumbers the base classes (recursively), then
+reads `base_attrs(target)` — the nearest base's attrs first — for
+`find_next_sequence_number`; so the numbers a class reads from its bases are
+always final numbers, never raw ids. `baseSeqs` = numbers of the classes above. -/
+def renumberChainFrom (baseSeqs : List (Option Int)) : List (List SeqAttr) → List (List SeqAttr)
+  | [] => []
+  | c :: rest =>
+    let c' := resetSequenceNumbers baseSeqs c
+    c' :: renumberChainFrom (c'.map (·.sequence) ++ baseSeqs) rest
+
+/-- the three handlers for every class of an inheritance chain (root first) -/
+def sequencePipelineChain (chain : List (List SeqAttr)) : List (List SeqAttr) :=
+  renumberChainFrom [] (chain.map (fun attrs => resetSequences (calculatePaths attrs)))
 
 /-- canonical label (first-seen rank) of each attr's choice id: which attrs
 `CreateCompoundFields` would put into the same compound field -/
